@@ -52,16 +52,16 @@ Start ==
     \/ \E h \in H : Lowest(hst, H, h, "live") /\ DropHandle(h) /\ H_("Drop", "h", h, "")
     \/ \E g \in G : Lowest(gst, G, g, "live") /\ DropGuard(g) /\ H_("Drop", "g", g, "")
     \/ \E f \in F : Lowest(fst, F, f, "live") /\ FUpgrade(f) /\ H_("Drop", "f", f, "")
-    \/ \E s \in S : SSend(s) /\ H_("Drop", "s", s, smode[s])
+    \/ \E s \in S : SBegin(s) /\ H_("Drop", "s", s, smode[s])
     \* the slot guard is dropped by the unwinding of a panic of the thread that holds it (after its last
     \* mutation): the same steps, and the property expects the same (value present as last mutated)
-    \/ "DropUnwind" \in SeqOps /\ \E s \in S : SSend(s) /\ H_("DropUnwind", "s", s, smode[s])
+    \/ "DropUnwind" \in SeqOps /\ \E s \in S : SBegin(s) /\ H_("DropUnwind", "s", s, smode[s])
 
 Continue ==
     /\ \/ opc = "d_value" /\ DropOwner1
        \/ DropOwner2
        \/ \E f \in F : FTake(f) \/ FCall(f) \/ FRelease(f)
-       \/ \E s \in S : SRelease(s)
+       \/ \E s \in S : SSend(s) \/ SRelease(s)
        \/ EmitRead \/ EmitAppend
     /\ UNCHANGED hist
 
